@@ -618,6 +618,54 @@ def _evaluate(case, o: Oracle, tab: L.Table, m: Mat, eff: int, tname: str) -> No
                 _compare_parsed(o, parsed2, expect, present, eff, tname, req, "without_mem_type", extras=False)
             else:
                 o.label("parse:ambiguous_mem_type")
+    # ------------------------------------------------------------------ (e) the commands: parse stores the parts, merge of what was stored gives the image again
+    # Only for images made of application containers: the configuration parse writes for the other segment kinds is a re-description
+    # (FCB / XMCD as YAML, version word as a number, raw blocks cut to their window) that merge does not turn into the same bytes
+    # in general, and the property does not say it should.
+    if parsed is not None and not o.fails and DBI.is_latest(_state()["db"], dev, rev) and all(n in L.APP_SEGMENTS for n in present) \
+            and (len(present) >= 2 or hashlib.sha256(repr(sorted(case.items(), key=str)).encode()).digest()[0] % 4 == 0):
+        _commands_roundtrip(o, data, dev, mt, m.dir, tname, req)
+
+
+def _commands_roundtrip(o: Oracle, data: bytes, dev: str, mt: str, wd: str, tname: str, req) -> None:
+    """`nxpimage bootable-image parse -f .. -m .. -b image -o dir` followed by `nxpimage bootable-image merge -c dir/<stored>.yaml -o again`."""
+    import glob
+
+    from click.testing import CliRunner
+
+    from spsdk.apps import nxpimage
+
+    src = os.path.join(wd, "cli_image.bin")
+    with open(src, "wb") as f:
+        f.write(data)
+    out = os.path.join(wd, "cli_parsed")
+    again = os.path.join(wd, "cli_again.bin")
+    o.label("commands")
+    res = CliRunner().invoke(nxpimage.main, ["bootable-image", "parse", "-f", dev, "-m", mt, "-b", src, "-o", out], catch_exceptions=True)
+    if res.exit_code != 0:
+        o.fail("commands", "parse_exit:%s" % res.exit_code, "%s init %r: %s %s" % (tname, req, (res.output or "")[-300:], repr(res.exception)[:200]))
+        return
+    cfgs = glob.glob(os.path.join(out, "bootable_image_*.yaml"))
+    if len(cfgs) != 1:
+        o.fail("commands", "stored_configuration", "%s: parse stored %d bootable image configurations in %s" % (tname, len(cfgs), sorted(os.listdir(out))[:12]))
+        return
+    # the stored configuration names the AHAB sub-configuration relative to the output folder and SPSDK looks its image files up
+    # relative to the working directory: the merge is run from the folder parse wrote (observation, see DESIGN.md 9.3)
+    cwd = os.getcwd()
+    try:
+        os.chdir(out)
+        res = CliRunner().invoke(nxpimage.main, ["bootable-image", "merge", "-c", cfgs[0], "-o", again], catch_exceptions=True)
+    finally:
+        os.chdir(cwd)
+    if res.exit_code != 0:
+        # the property says nothing about configurations that parse writes and merge refuses (observed: an absent optional segment is
+        # stored as an empty path that the merge schema rejects): no image, no verdict
+        o.label("commands:merge_refused")
+        return
+    o.label("commands:merged_again")
+    with open(again, "rb") as f:
+        got = f.read()
+    o.check("commands", got == data, "parse_then_merge_differs", "%s init %r: image merged from what parse stored: %d bytes, original %d; %s" % (tname, req, len(got), len(data), _diff(got, data)))
 
 
 def _seg_class(n: str) -> str:
